@@ -82,14 +82,14 @@ func genContent(t *rapid.T, label string, resourceOnly bool) C02Content {
 	case "text":
 		c.Text = genStr(t, label+"text", c02EmptyOK("text"))
 	case "image", "audio":
-		c.Data = StrSpec{Class: "ascii", N: rapid.SampledFrom([]int{4, 64, 70000}).Draw(t, label+"datalen"), Seed: 3}
+		c.Data = StrSpec{Class: "ascii", N: rapid.SampledFrom([]int{0, 4, 64, 70000}).Draw(t, label+"datalen"), Seed: 3}
 		c.Mime = rapid.SampledFrom([]string{"image/png", "audio/wav", "application/octet-stream; x=\"y\""}).Draw(t, label+"mime")
 	case "res-text":
 		c.Text = genStr(t, label+"rtext", c02EmptyOK("resource-text"))
 		c.URI = rapid.SampledFrom([]string{"file:///a.txt", "mem://x?y=z#f", "urn:ünï"}).Draw(t, label+"uri")
 		c.Mime = rapid.SampledFrom([]string{"", "text/plain", "text/markdown; charset=utf-8"}).Draw(t, label+"rmime")
 	case "res-blob":
-		c.Data = StrSpec{Class: "ascii", N: rapid.SampledFrom([]int{4, 1000}).Draw(t, label+"bloblen"), Seed: 5}
+		c.Data = StrSpec{Class: "ascii", N: rapid.SampledFrom([]int{0, 4, 1000, 100000}).Draw(t, label+"bloblen"), Seed: 5}
 		c.URI = rapid.SampledFrom([]string{"file:///b.bin", "blob:1"}).Draw(t, label+"buri")
 		c.Mime = rapid.SampledFrom([]string{"", "application/octet-stream"}).Draw(t, label+"bmime")
 	}
